@@ -321,6 +321,11 @@ func (c *RunCtx) callee(kind, who string, args []string) error {
 	if simrt.W != nil {
 		simrt.W.Event("callee %s %s fail=%d", kind, who, call.Fail)
 	}
+	if pe, ok := err.(panicErr); ok && kind != "complete" {
+		// (the call is in the log already)
+		c.calls = append(c.calls, call)
+		panic(pe.Error() + " in " + kind + " " + who)
+	}
 	if kind == "callback" && c.sc.Decl != nil && c.sc.Decl.CmdHandler == "late-log" && c.b != nil && c.b.P != nil {
 		// the --dry-run idiom: an option's callback installs the CommandHandler while
 		// the line is being parsed; the handler in place at dispatch decides
